@@ -2063,3 +2063,22 @@ R5_BUFFERS = [
     V("M:r5-isascii-buffer-grows-after-the-test", (U, R5_HEAD, '    buf = bytearray(domain.encode())\n\n    if not buf.isascii():\n        return domain\n\n    buf.extend(unquote(domain).encode())\n    data = bytes(buf)\n'), expect="R7.1"),
 ]
 _split(R5_BUFFERS)
+
+# nested local functions are followed (MODEL_DOC["nested-def"]); codecs.lookup raises ValueError for a NUL in the name
+_CS_OLD = "            try:\n                return codecs.lookup(name).name\n            except (LookupError, ValueError):\n                # ValueError: the name contains a null character.\n                return name.lower()\n"
+MUTANTS += [
+    {"name": "charset-normalize-handler-loses-valueerror", "expect": "R7.1", "edits": [(AC, "            except (LookupError, ValueError):\n                # ValueError", "            except LookupError:\n                # ValueError")]},
+    {"name": "charset-normalize-without-try", "expect": "R7.1", "edits": [(AC, _CS_OLD, "            return codecs.lookup(name).name\n")]},
+    {"name": "charset-normalize-module-level-helper-narrow-handler", "expect": "R7.1", "edits": [
+        (AC, "class CharsetAccept(Accept):", "def _normalize_charset(name: str) -> str:\n    try:\n        return codecs.lookup(name).name\n    except LookupError:\n        return name.lower()\n\n\nclass CharsetAccept(Accept):"),
+        (AC, "        def _normalize(name: str) -> str:\n" + _CS_OLD + "\n        return item == \"*\" or _normalize(value) == _normalize(item)", "        return item == \"*\" or _normalize_charset(value) == _normalize_charset(item)")]},
+    {"name": "charset-normalize-lambda-free-nested-int", "expect": "R7.1", "edits": [(AC, "        def _normalize(name: str) -> str:\n" + _CS_OLD, "        def _normalize(name: str) -> str:\n            if name[:2] == \"cp\":\n                return \"cp%d\" % int(name[2:])\n" + _CS_OLD)]},
+]
+TWINS += [
+    {"name": "charset-normalize-module-level-helper", "edits": [
+        (AC, "class CharsetAccept(Accept):", "def _normalize_charset(name: str) -> str:\n    try:\n        return codecs.lookup(name).name\n    except (LookupError, ValueError):\n        return name.lower()\n\n\nclass CharsetAccept(Accept):"),
+        (AC, "        def _normalize(name: str) -> str:\n" + _CS_OLD + "\n        return item == \"*\" or _normalize(value) == _normalize(item)", "        return item == \"*\" or _normalize_charset(value) == _normalize_charset(item)")]},
+    {"name": "charset-normalize-handler-widened", "edits": [(AC, "            except (LookupError, ValueError):\n                # ValueError", "            except Exception:\n                # ValueError")]},
+    {"name": "charset-normalize-try-else", "edits": [(AC, _CS_OLD, "            try:\n                info = codecs.lookup(name)\n            except (LookupError, ValueError):\n                return name.lower()\n            else:\n                return info.name\n")]},
+    {"name": "charset-normalize-nested-renamed", "edits": [(AC, "        def _normalize(name: str) -> str:", "        def canonical(name: str) -> str:"), (AC, "_normalize(value) == _normalize(item)", "canonical(value) == canonical(item)")]},
+]
